@@ -257,6 +257,15 @@ func (idx *HNSWIndex) Add(vector VectorNode) error {
 	// ════════════════════════════════════════════════════════════════════════
 	idx.mu.Lock()
 
+	// Re-adding an ID that is still soft-deleted (update = remove + add): purge the
+	// pending deletions first, otherwise the stale mark would hide the new vector.
+	if idx.deletedNodes.Contains(vector.ID()) {
+		if err := idx.flushLocked(); err != nil {
+			idx.mu.Unlock()
+			return err
+		}
+	}
+
 	// Assign ID if needed (inside lock to ensure uniqueness)
 	if id == 0 {
 		id = idx.nextID
@@ -348,6 +357,12 @@ func (idx *HNSWIndex) Remove(vector VectorNode) error {
 func (idx *HNSWIndex) Flush() error {
 	idx.mu.Lock()
 	defer idx.mu.Unlock()
+
+	return idx.flushLocked()
+}
+
+// flushLocked is Flush without locking. The caller MUST hold the write lock.
+func (idx *HNSWIndex) flushLocked() error {
 
 	// Quick exit if nothing to flush
 	deletedCount := int(idx.deletedNodes.GetCardinality())
